@@ -2,7 +2,10 @@
 from .. import tsprops as T
 
 LEVEL = 'proof'
-NEEDS = ['Base', 'Digraph', 'TSGraph', 'TSGraphProofs', 'MinimalProofs', 'ExtendProofs', 'StationaryProofs', 'SummaryProofs', 'StationaryProofs2', 'MinimalProofs2', 'CorrTS']
+NEEDS = ['PyRtTSa', 'TSGenStationary', 'TSGenStationaryProofs', 'CorrTSGenCases', 'CorrTSGenStationary', 'Base', 'Digraph', 'TSGraph', 'TSGraphProofs', 'MinimalProofs', 'ExtendProofs', 'StationaryProofs', 'SummaryProofs', 'StationaryProofs2', 'MinimalProofs2', 'CorrTS']
+# the code translated from the source on every run: when the translator REFUSES the current source the run falls back to the
+# hand-written model and its correspondence (harness/main.py)
+GEN_SOFT = dict(generated=['TSGenStationary'], modules=['PyRtTSa', 'TSGenStationary', 'TSGenStationaryProofs', 'CorrTSGenCases', 'CorrTSGenStationary'])
 DESCRIBE = {
     'C14': 'get_minimal_graph / is_minimal_graph / adjacency_matrices compared with the model; the characterisation c14_check (proved equivalent to the membership statement) evaluated by Coq on the graph the implementation returned.',
     'C15': 'extend_graph over a grid of (backward_steps, forward_steps, include_all_parents) incl. None, 0 and negative values; c15_check evaluated on every returned graph.',
